@@ -9,6 +9,7 @@ R13.5 COPY-ON-WRITE   = R9.1 (Determinate)
 Aliased arguments x.op(x) in general need value reasoning: not decided.
 """
 import re
+from pplv import flow
 
 from pplv import facts as F
 from rules import c09
@@ -287,6 +288,83 @@ def r13_6(ctx):
     ctx.floor(rid, n, 120, "member x copy constructor obligations")
 
 
+R137_EXC = {
+}
+
+
+def r13_7(ctx):
+    """The receiver's storage is not moved out while a same-class argument is still to be read."""
+    from rules.c14 import units_alloc
+    rid = "R13.7"
+    ctx.rule(rid, "no steal before the last read of a possible alias: in a member with a parameter `const K& y` of the receiver's own class, an exchange that moves a data member of the receiver out into a default-constructed local (swap(x.F, local), x.F.swap(local), x.m_swap(local)) is not followed, on any path, by a read through y — unless the function excludes `this == &y` first. With y aliasing the receiver (x.op(x), allowed by the interface) the later read sees the emptied member, so x.op(x) differs from x.op(copy of x)")
+    fx = ctx.extract(units_alloc())
+    n = 0
+    seen = set()
+    for f in fx.functions:
+        if not f.cfg or not f.cls or f.kind != "method" or f.flag("const") or (f.relfile, f.line) in seen:
+            continue
+        k = ckey(f.cls).split("::")[-1]
+        ys = [p_["n"] for p_ in f.params if "const" in p_["t"] and "&" in p_["t"] and k and re.search(r"\b%s\b" % re.escape(k), p_["t"])]
+        if not ys:
+            continue
+        seen.add((f.relfile, f.line))
+
+        def is_local(a):
+            """a local that was default-constructed: exchanging with it empties the other side"""
+            a = f.deref(a)
+            while a is not None and a["k"] in ("cast", "paren") and a.get("c"):
+                a = f.deref(a["c"][0])
+            if a is None or a["k"] != "ref" or a.get("dk") != "local":
+                return False
+            vs = [v for v in f.walk() if v["k"] == "var" and v.get("n") == a["n"]]
+            if len(vs) != 1:
+                return False
+            init = f.deref(vs[0]["c"][0]) if vs[0].get("c") else None
+            while init is not None and init["k"] in ("cast", "paren", "temp", "bind") and init.get("c") and len(init["c"]) == 1:
+                init = f.deref(init["c"][0])
+            return init is None or (init["k"] == "construct" and not [x for x in init.get("c", ()) if f.deref(x) is not None])
+
+        def is_this_field(a):
+            a = f.deref(a)
+            if a is None:
+                return False
+            r = f.root(a)
+            return r[0] == "this" and len(r) >= 2
+        events = []
+        for c in f.calls():
+            nm = f.call_name(c)
+            if c["k"] == "call" and nm == "swap" and len(f.call_args(c)) == 2:
+                a, b = f.call_args(c)
+                if (is_local(a) and is_this_field(b)) or (is_local(b) and is_this_field(a)):
+                    events.append(c)
+            elif c["k"] == "mcall" and nm in ("swap", "m_swap") and len(f.call_args(c)) == 1 and is_local(f.call_args(c)[0]):
+                o = f.call_obj(c)
+                if o is None or f.root(o)[0] == "this":
+                    events.append(c)
+        guard = any(x["k"] in ("binop", "ocall") and x.get("op") in ("==", "!=") and "this" in f.text(x) and any(("&" + y_) in f.text(x).replace(" ", "") for y_ in ys) for x in f.walk())
+        for c in events:
+            n += 1
+            inst = "%s::%s `%s` (line %s)" % (f.clsn, f.name, f.text(c)[:50], c.get("l"))
+            pos = f.cfg_pos(c)
+            if pos is None:
+                continue
+
+            def reads_y(x):
+                if f.within(x, c):
+                    return False
+                if x["k"] in ("ref",) and x.get("dk") == "param" and x.get("n") in ys:
+                    return True
+                return False
+            p = flow.Explorer(f, track_env=False).find_path(pos, lambda x: False, target=lambda x: any(reads_y(z) for z in f.walk(x)))
+            if p is None or guard:
+                ctx.ok(rid, inst, f.where(c))
+            elif (f.clsn, f.name) in R137_EXC:
+                ctx.excepted(rid, inst, f.where(c), R137_EXC[(f.clsn, f.name)])
+            else:
+                ctx.violation(rid, inst, f.where(c), "a member of the receiver is moved out into a local and a later step still reads the argument `%s` (path %s): if the argument is the receiver itself it has just been emptied" % ("/".join(ys), flow.render_path(f, p)))
+    ctx.floor(rid, n, 2, "exchanges of a receiver member with a default-constructed local in members taking a same-class argument")
+
+
 def r13_4(ctx):
     """Const arguments: who may strip constness, and what they may then do."""
     import json
@@ -399,6 +477,7 @@ def run(ctx):
     r13_4(ctx)
     r13_8(ctx)
     r13_6(ctx)
+    r13_7(ctx)
     fx9 = ctx.extract(c09.units(ctx.tier))
     ctx.rule("R9.1", "see C09")
     c09.r9_1(ctx, fx9)
